@@ -39,7 +39,11 @@ Chain(u, f, r, kind, stack) ==
        nm == IF r.frag = <<>> \/ r.frag[1] = "#inl" THEN "" ELSE r.frag[2]
        i  == SlotAt(u, tf, k, nm)
    IN
-   IF r.frag # <<>> /\ r.frag[1] = "#inl"
+   IF r.frag # <<>> /\ r.frag[1] = "#pathinl"
+   THEN LET j == SlotAt(u, tf, "pathItems", r.frag[2]) IN
+        (IF j = 0 \/ ~IsConcrete(u.slots[j].c) \/ InlAt(u.slots[j].c, r.frag[3]) = "" THEN [v |-> -1, hops |-> <<>>]
+         ELSE [v |-> j, hops |-> <<Entry(f, r, kind)>>, inl |-> InlAt(u.slots[j].c, r.frag[3])])
+   ELSE IF r.frag # <<>> /\ r.frag[1] = "#inl"
    THEN (IF i = 0 \/ ~IsConcrete(u.slots[i].c) \/ InlAt(u.slots[i].c, r.frag[2]) = "" THEN [v |-> -1, hops |-> <<>>]
          ELSE [v |-> i, hops |-> <<Entry(f, r, kind)>>, inl |-> InlAt(u.slots[i].c, r.frag[2])])
    ELSE IF k # kind \/ i = 0 THEN [v |-> -1, hops |-> <<>>]
